@@ -173,6 +173,14 @@ def register(I, T, reg, ret, panic, some, none, deref):
             st2.add(cs[4:])
         return [(valid, ("do", upd, some(Date(rd, y, m, d, o)))), (z3.Not(valid), ("ret", none()))]
 
+    @reg("NaiveDate::leap_year")
+    def leap_year(I, st, a, c):
+        dt = deref(I, st, a[0])
+        y = dt.y if dt.y is not None else fields(I, st, dt).y
+        if not is_sym(y):
+            return (y % 4 == 0 and y % 100 != 0) or y % 400 == 0
+        return is_leap(y)
+
     @reg("NaiveDate::iter_days")
     def iter_days(I, st, a, c):
         dt = deref(I, st, a[0])
